@@ -111,7 +111,19 @@ Nm(i) == <<114, 48 + i>>
 IdR(i) == Id(CASE i = 0 -> "r0" [] i = 1 -> "r1" [] OTHER -> "r2", Nm(i))
 X == S(<<120>>)
 RefBodies == UNION { { IdR(i), [t |-> "seq", a |-> IdR(i), b |-> X], [t |-> "alt", a |-> IdR(i), b |-> X],
-                       [t |-> "rep", a |-> IdR(i)], [t |-> "seq", a |-> [t |-> "opt", a |-> X], b |-> IdR(i)] } : i \in 0..2 } \cup {X}
+                       [t |-> "rep", a |-> IdR(i)], [t |-> "seq", a |-> [t |-> "opt", a |-> X], b |-> IdR(i)],
+                       [t |-> "alt", a |-> X, b |-> [t |-> "seq", a |-> X, b |-> [t |-> "seq", a |-> IdR(i), b |-> IdR(i)]]],
+                       [t |-> "alt", a |-> [t |-> "seq", a |-> [t |-> "opt", a |-> X], b |-> IdR(i)], b |-> X],
+                       [t |-> "rep", a |-> [t |-> "seq", a |-> [t |-> "opt", a |-> X], b |-> IdR(i)]] } : i \in 0..2 } \cup {X}
+ShapeOn(k, i) ==
+  CASE k = 1 -> IdR(i)
+    [] k = 2 -> [t |-> "seq", a |-> IdR(i), b |-> X]
+    [] k = 3 -> [t |-> "alt", a |-> IdR(i), b |-> X]
+    [] k = 4 -> [t |-> "rep", a |-> IdR(i)]
+    [] k = 5 -> [t |-> "seq", a |-> [t |-> "opt", a |-> X], b |-> IdR(i)]
+    [] k = 6 -> [t |-> "alt", a |-> X, b |-> [t |-> "seq", a |-> X, b |-> [t |-> "seq", a |-> IdR(i), b |-> IdR(i)]]]
+    [] k = 7 -> [t |-> "alt", a |-> [t |-> "seq", a |-> [t |-> "opt", a |-> X], b |-> IdR(i)], b |-> X]
+    [] OTHER -> [t |-> "rep", a |-> [t |-> "seq", a |-> [t |-> "opt", a |-> X], b |-> IdR(i)]]
 SemToks(f) == AllToks(<< [name |-> Nm(0), ty |-> "", tych |-> <<>>, e |-> f[0]],
                          [name |-> Nm(1), ty |-> "", tych |-> <<>>, e |-> f[1]],
                          [name |-> Nm(2), ty |-> "", tych |-> <<>>, e |-> f[2]] >>, Style)
@@ -122,6 +134,9 @@ H(ts) == IF ts = <<>> THEN 11 ELSE (31 * H(Tail(ts)) + Len(ts[1]) + (IF ts[1] = 
 Cases == UNION { { f \in Faults(AllToks(RulesOf(e), Style)) : H(f.toks) % NShards = Shard } : e \in Exprs }
          \cup UNION { { f \in LightFaults(AllToks(RulesOf(e), Style)) : H(f.toks) % NShards = Shard } : e \in Nested }
          \cup { x \in { [kind |-> "none", at |-> 0, toks |-> SemToks(f)] : f \in [0..2 -> RefBodies] } : H(x.toks) % NShards = Shard }
+         \* ... and, in EVERY shard, the rule sets in which all three rules have the same shape and refer to the rule d places
+         \* further on (d = 0: each to itself): every shape as a self-reference, as a two-cycle neighbour and as a three-cycle
+         \cup { [kind |-> "none", at |-> 0, toks |-> SemToks([i \in 0..2 |-> ShapeOn(k, (i + d) % 3)])] : k \in 1..8, d \in 0..2 }
 
 Init == c \in Cases
 Next == UNCHANGED c
